@@ -64,6 +64,10 @@ def gen_case(rng, i=None, shard=0):
     case = {'opts': opts, 'subset': subset, 'entry': entry, 'muts': muts, 'spell_ignore_lines': rng.random() < 0.3}
     if entry == 'file' and rng.random() < 0.15:
         case['names'] = rng.choice([['out.txt', 'ref.pdf'], ['out.pdf', 'ref.pdf'], ['out.dat', 'ref.csv'], ['OUT.TXT', 'ref.PDF'], ['out.csv', 'ref.pdf']])
+    if entry == 'string' and rng.random() < 0.3:
+        # the actual given as a sequence of lines instead of one string: split lines, or lines that keep their terminator
+        # (what readlines() returns)
+        case['actual_form'] = rng.choice(['lines', 'tuple', 'readlines', 'readlines-tuple'])
     if entry == 'check_strings':
         case['actual'], case['expected'] = act, ref
     else:
@@ -103,7 +107,13 @@ def run_case(ctx, case):
             write(ep, case['expected_text'])
             pairs = [(case['actual_text'].splitlines(), case['expected_text'].splitlines())]
             if entry == 'string':
-                r.assertStringCorrect(case['actual_text'], ep, **ro)
+                form = case.get('actual_form')
+                actual = case['actual_text']
+                if form:
+                    actual = actual.splitlines(form.startswith('readlines'))
+                    actual = tuple(actual) if form.endswith('tuple') else actual
+                    rec.event('actual:sequence_of_lines')
+                r.assertStringCorrect(actual, ep, **ro)
             elif entry == 'file':
                 if case.get('names'):
                     # (both files are decoded by one rule, the one the REFERENCE's name selects: iso-8859-1 for .pdf, else UTF-8)
@@ -155,6 +165,20 @@ def run_case(ctx, case):
             # read as iso-8859-1, a multi-byte character is several other characters: bytes that become line ends or blanks,
             # Unicode line separators that stop being line ends, and option strings that no longer occur have no set verdict
             vs = [('unspecified', {'why': 'UTF-8 text read as iso-8859-1 in a way that changes its line structure or the options\' reach'})]
+    if case.get('actual_form'):
+        # a sequence of lines carries no "ends with a newline" of its own: verdicts that hinge on trailing empty lines are not judged
+        def _trim(ls):
+            ls = list(ls)
+            while ls and not ls[-1].strip():
+                ls.pop()
+            return ls
+        v2 = textcmp.verdict(_trim(pairs[0][0]), _trim(pairs[0][1]), oo)
+        if v2[0] != vs[0][0]:
+            vs = [('unspecified', {'why': 'sequence of lines: verdict hinges on trailing empty lines'})]
+    if (case.get('actual_form') or '').startswith('readlines') and not (vs[0][0] == 'fail' and not o.get('ignore_patterns') and not o.get('preprocess')):
+        # elements that keep their line terminator: a difference between the texts themselves must still be reported; whether
+        # the terminators alone count as a difference (or are covered by rstrip / a pattern) is not something the documentation settles
+        vs = [('unspecified', {'why': 'lines given with their terminators: only differences of the texts themselves are judged'})]
     if any(v == 'fail' for v, _ in vs):
         want = 'fail'
     elif all(v == 'pass' for v, _ in vs):
